@@ -170,3 +170,157 @@ def slim(j, full=False):
     if full:
         return {"desc": j["desc"], "outcome": j["outcome"], "msg": j.get("msg", "")[:300], "effects": cut(j["effects"]), "enc": cut(j["enc"]), "urls": cut(j["urls"])}
     return cut({"desc": j["desc"], "outcome": j["outcome"], "effects": j["effects"]})
+
+# ------------------------------------------------------------------ C11
+def capi(a): return "Cap" if a == "cap" else "Cmd"
+def coq_kv(o):
+    t = o["t"]
+    if t == "Get": return "KGet %s" % cs(o["key"])
+    if t == "Set": return "KSet %s %s" % (cs(o["key"]), cb(o["hex"]))
+    if t == "Delete": return "KDelete %s" % cs(o["key"])
+    if t == "Exists": return "KExists %s" % cs(o["key"])
+    return "KList %s %s" % (cs(o["prefix"]), o["cursor"])
+
+def coq_aop(o, oracles):
+    t = o["t"]
+    if t == "Http":
+        d = o["desc"]; orc = oracles.pop(0)
+        ops = [coq_op(x, e) for x, e in zip(d["ops"], orc["enc"])]
+        urls = clist("(%s, %s)" % (copt(k), copt(v)) for k, v in orc["urls"])
+        return "AHttp %s %s (tbl_url_ok %s) (tbl_url_str %s) %s %s" % (capi(d["api"]), cs(d["method"]), urls, urls, clist(ops[:d["split"]]), clist(ops[d["split"]:]))
+    if t == "Kv": return "AKv %s (%s)" % (capi(o["api"]), coq_kv(o["op"]))
+    if t == "Now": return "ANow %s" % capi(o["api"])
+    if t == "After": return "AAfter %s %s" % (capi(o["api"]), o["nanos"])
+    if t == "At": return "AAt %s %s %s" % (capi(o["api"]), o["secs"], o["nanos"])
+    if t == "Clear": return "AClear %s" % o["j"]
+    if t == "Render": return "ARender %s" % capi(o["api"])
+    raise ValueError(t)
+
+def coq_effect(e):
+    k = e["k"]
+    if k == "http":
+        hs = clist("(%s, %s)" % (cb(n), cb(v)) for n, v in e["headers"])
+        return "EHttp {| q_method := %s; q_url := %s; q_headers := %s; q_body := %s |}" % (cs(e["method"]), cb(e["url"]), hs, cb(e["body"]))
+    if k == "kv": return "EKv (%s)" % coq_kv(e)
+    if k == "render": return "ERender"
+    t = e["t"]
+    if t == "Now": return "ETime TNow"
+    if t == "At": return "ETime (TAt %s %s %s)" % (e["id"], e["secs"], e["nanos"])
+    if t == "After": return "ETime (TAfter %s %s)" % (e["id"], e["nanos"])
+    return "ETime (TClear %s)" % e["id"]
+
+def coq_replay_case(j):
+    oracles = list(j["oracles"])
+    steps = []
+    for st in j["hist"]:
+        if st["t"] == "Event": steps.append("SEvent %s" % clist(coq_aop(o, oracles) for o in st["ops"]))
+        elif st["t"] == "Resolve": steps.append("SResolve %d" % st["k"])
+        else: steps.append("SView")
+    obs = clist(clist(coq_effect(e) for e in b) for b in j["obs"])
+    return "{| rc_hist := %s; rc_obs := %s; rc_agree := %s |}" % (clist(steps), obs, "true" if j["agree"] else "false")
+
+def coq_val(v):
+    if "n" in v: return "VN %s" % v["n"]
+    if "b" in v: return "VB %s" % cb(v["b"])
+    return "VC %d %s" % (v["c"], clist("(%s)" % coq_val(x) if ("c" in x or "n" in x or "b" in x) else coq_val(x) for x in v["a"]))
+
+def coq_resp_desc(d):
+    calls = [coq_op(o, {"hex": None}) for o in d["calls"]]
+    return "{| rd_version := None; rd_status := %d; rd_calls := %s; rd_body := %s |}" % (d["status"], clist(calls), copt(d["body"]))
+
+def coq_eq_case(j):
+    b = lambda x: "true" if x else "false"
+    if j["kind"] == "eq_resp":
+        return "EqResp %s %s %s %s" % (coq_resp_desc(j["a"]), coq_resp_desc(j["b"]), b(j["ab"]), b(j["ba"]))
+    return "EqVal (%s) (%s) %s %s" % (coq_val(j["a"]), coq_val(j["b"]), b(j["ab"]), b(j["ba"]))
+
+def c11_file(replays, eqs):
+    t = ["From Coq Require Import List NArith. Import ListNotations. From Crux Require Import Base.Res HttpReq.Model HttpReq.Eq HttpReq.Replay.",
+         "Open Scope N_scope.", "Definition rs : list replay_case := ["]
+    t.append(";\n".join(coq_replay_case(j) for j in replays))
+    t.append("].\nDefinition es : list eq_case := [")
+    t.append(";\n".join(coq_eq_case(j) for j in eqs))
+    t.append("].\nEval vm_compute in (replay_verdicts rs).\nEval vm_compute in (eq_verdicts es).")
+    return "\n".join(t)
+
+def check_C11(run, replay=None):
+    tier = run.tier
+    nh, ne = (500, 2000) if tier == "quick" else (10000, 40000)
+    C.proof_stage(run, "C11")
+    ok, log, bins = C.harness_build(["httpreq_replay"])
+    run.oblige("harness-build httpreq_replay from %s working tree" % C.REPO, ok, log[-1500:])
+    cases = []
+    if ok:
+        corpus = sorted(glob.glob(os.path.join(CORPUS, "c11_*.jsonl")))
+        if replay:
+            cases += run_harness(run, bins, "httpreq_replay", "--replay " + replay)
+        else:
+            for f in corpus:
+                cases += run_harness(run, bins, "httpreq_replay", "--replay " + f)
+            cases += run_harness(run, bins, "httpreq_replay", "%d %d %d" % (run.seed, nh, ne), timeout=2400)
+    evaluate_C11(run, cases)
+    run.cov["rule"] = ("(a) histories of 2..8 steps: events issuing 1..5 operations each (HTTP descriptions with >= 2 extra headers through the command or capability API, key-value get/set/delete/exists/list, "
+                       "time now/notify_after/notify_at/clear, render), resolutions of the k-th outstanding request with a seeded response, view reads; every history is replayed against a fresh Core 3x in-process and "
+                       "once in each of 2 further processes (the binary re-executes itself), and the bincode bytes of all effect batches (timer ids renumbered by first occurrence) and views are compared byte for byte; "
+                       "(b) pairs of crux_http::Response built from header-call descriptions (same content respelled in shuffled order / mixed case / insert+append, single mutations, independent) with == evaluated both ways; "
+                       "(c) pairs of protocol values with derived equality (10 types) from small domains, == both ways. A replay case is non-trivial when it has an event issuing an HTTP request or a timer; every eq case is; distinct by content.")
+    run.assumptions += ["the app's update function is itself deterministic (the harness app is); address-, time- and thread-dependence cannot appear in a functional model and are covered only by the cross-process replays",
+                        "url crate, serde encoders: oracles as in C14",
+                        "usize/u64 wrap-around of the timer counter is not modelled (N is unbounded)"]
+    run.trusted += ["hand-written models coq/HttpReq/{Model,Eq,Replay}.v (request building, Response::eq, the harness app's effect order, crux_time's id counter and cleared set)",
+                    "harness/src/bin/httpreq_replay.rs (app, replays in 3+2 runs, renumbering, byte comparison, encoders of protocol values as trees)",
+                    "engines/httpreq_eng.py printer of cases as Coq terms; lib/common.py parser of coqc output"]
+
+def evaluate_C11(run, cases):
+    reps = [j for j in cases if j["kind"] == "replay"]
+    eqs = [j for j in cases if j["kind"] != "replay"]
+    if not reps and not eqs:
+        run.oblige("C11 cases produced", False, "no cases"); return
+    n = 16 if len(cases) > 400 else 4
+    texts = [c11_file(reps[i::n], eqs[i::n]) for i in range(n)]
+    res = C.run_case_files("C11", texts)
+    hist = collections.Counter(); opk = collections.Counter()
+    bad_model, bad_ok, gen_bugs = [], [], []
+    for i, (ok, vals, raw) in enumerate(res):
+        rs, es = reps[i::n], eqs[i::n]
+        if not ok or len(vals) != 2 or len(vals[0]) != len(rs) or len(vals[1]) != len(es):
+            run.oblige("case-evaluation shard", False, raw[-1200:]); continue
+        for j, v in zip(rs, vals[0]):
+            kinds = [o["t"] for st in j["hist"] if st["t"] == "Event" for o in st["ops"]]
+            for k in kinds: opk[k] += 1
+            hist[("replay", "agree" if j["agree"] else "DIFFER")] += 1
+            run.note_case(json.dumps(j["hist"], sort_keys=True), nontrivial=any(k in ("Http", "After", "At") for k in kinds))
+            run.cov["traces_validated_against_impl"] += j.get("replays", 1)
+            if v == 1: bad_model.append(j)
+            elif v == 2: bad_ok.append(j)
+            elif v == 9: gen_bugs.append(j)
+        for j, v in zip(es, vals[1]):
+            hist[(j["kind"], j.get("ty", "Response"), "eq" if j["ab"] else "ne")] += 1
+            run.note_case(json.dumps([j["a"], j["b"]], sort_keys=True))
+            run.cov["traces_validated_against_impl"] += 1
+            if v == 1: bad_model.append(j)
+            elif v == 2: bad_ok.append(j)
+            elif v == 9: gen_bugs.append(j)
+    run.oblige("correspondence model=implementation on %d histories (effect batches) and %d equality cases" % (len(reps), len(eqs)),
+               not bad_model and not gen_bugs, json.dumps([slim11(j) for j in (bad_model + gen_bugs)[:3]])[:3000])
+    run.oblige("C11_ok: all replays (3 in-process + 2 processes) byte-identical, and == is content equality, on every case", not bad_ok,
+               json.dumps([slim11(j) for j in bad_ok[:3]])[:3000])
+    if bad_ok:
+        bad_ok.sort(key=lambda j: len(json.dumps(j)))
+        run.violation("C11_ok", {"property": "C11", "what": "replays of one history differ (after timer renumbering), or == disagrees with equality of contents",
+                                 "cases": [slim11(j) for j in bad_ok[:20]],
+                                 "how_to_replay": "./check C11 --replay <this file>: histories are re-run 3x in-process and in 2 child processes, eq_resp pairs are rebuilt and compared"})
+    elif bad_model or gen_bugs:
+        run.violation("correspondence", {"property": "C11", "what": "model and implementation differ; replays agree and == is content equality on everything seen",
+                                         "cases": [slim11(j) for j in (bad_model + gen_bugs)[:20]], "broken": "correspondence HttpReq.Replay / HttpReq.Eq vs crux"}, no_input=True)
+    run.cov["samples"] = [slim11(j) for j in reps[:2] + eqs[:2]]
+    run.extra["distribution"] = {"cases": {"/".join(map(str, k)): v for k, v in sorted(hist.items(), key=str)}, "operations_in_histories": dict(opk)}
+
+def slim11(j):
+    def cut(x):
+        if isinstance(x, str) and len(x) > 300: return x[:300] + "...(%d chars)" % len(x)
+        if isinstance(x, list): return [cut(y) for y in x]
+        if isinstance(x, dict): return {k: cut(v) for k, v in x.items() if k not in ("oracles",)}
+        return x
+    keep = dict(j)
+    return cut(keep) if j["kind"] != "replay" else dict(cut(keep), hist=j["hist"])
